@@ -31,6 +31,9 @@ type TermJob struct {
 	Analysis string `json:"analysis"` // taint taint-od taint-fs taint-esc backtrace backtrace-od escape reachability defers maypanic
 	Config   string `json:"config"`
 	Out      string `json:"out"`
+	// Limits: logical step bound per loop-head hook (200x the committed count); the worker stops itself when one is
+	// exceeded, so that a diverging analysis is reported after seconds instead of after the wall-clock watchdog.
+	Limits map[string]int64 `json:"limits,omitempty"`
 }
 
 // TermResult is the worker's answer.
@@ -51,6 +54,8 @@ func init() {
 		res := &TermResult{Steps: map[string]int64{}}
 		var mu sync.Mutex
 		counts := map[string]*int64{}
+		var aborting int32
+		var abort func(site string, n, lim int64)
 		analysis.VerifSetHook(func(site string) {
 			mu.Lock()
 			c := counts[site]
@@ -59,7 +64,10 @@ func init() {
 				counts[site] = c
 			}
 			mu.Unlock()
-			atomic.AddInt64(c, 1)
+			n := atomic.AddInt64(c, 1)
+			if lim, ok := job.Limits[site]; ok && n > lim && atomic.CompareAndSwapInt32(&aborting, 0, 1) {
+				abort(site, n, lim)
+			}
 		})
 		var fmu sync.Mutex
 		finished := false
@@ -83,6 +91,18 @@ func init() {
 			defer fmu.Unlock()
 			finished = true
 			flushLocked()
+		}
+		abort = func(site string, n, lim int64) {
+			fmu.Lock()
+			finished = true
+			res.Err = fmt.Sprintf("step-bound: loop %s made more than %d steps", site, lim)
+			mu.Lock()
+			for k, v := range counts {
+				res.Steps[k] = atomic.LoadInt64(v)
+			}
+			mu.Unlock()
+			core.WriteJSON(job.Out, res)
+			os.Exit(0)
 		}
 		// write step counts periodically so that a watchdog kill still leaves evidence of (non-)progress
 		go func() {
@@ -297,6 +317,22 @@ func C07(tier string) {
 		}
 	}
 	maxSteps := int64(0)
+	// A program/analysis that has no entry in the committed table (a program added after the table was recorded) is
+	// bounded by the largest count any committed program needed at each loop.
+	siteMax := map[string]int64{}
+	for _, m := range table {
+		for site, n := range m {
+			if n > siteMax[site] {
+				siteMax[site] = n
+			}
+		}
+	}
+	baseFor := func(key string) map[string]int64 {
+		if b, ok := table[key]; ok {
+			return b
+		}
+		return siteMax
+	}
 	core.Parallel(len(jobs), 8, func(ji int) {
 		j := jobs[ji]
 		p, a := progs[j.p], c07Analyses[j.a]
@@ -308,6 +344,20 @@ func C07(tier string) {
 		cp := filepath.Join(dir, "cfg-"+a.Name+".yaml")
 		_ = os.WriteFile(cp, []byte(c.YAML()), 0o644)
 		tj := &TermJob{Dir: dir, Analysis: a.Name, Config: cp, Out: filepath.Join(dir, "term-"+a.Name+".out.json")}
+		if !record {
+			tj.Limits = map[string]int64{}
+			for site, b := range baseFor(p.name + "/" + a.Name) {
+				if b < 50 {
+					b = 50
+				}
+				tj.Limits[site] = 200 * b
+			}
+			for site, b := range siteMax { // loops the committed run of this program never entered
+				if _, ok := tj.Limits[site]; !ok {
+					tj.Limits[site] = 200 * b
+				}
+			}
+		}
 		jf := filepath.Join(dir, "term-"+a.Name+".job.json")
 		core.WriteJSON(jf, tj)
 		cr := SpawnWorker("term", jf, 12*time.Minute)
@@ -332,9 +382,14 @@ func C07(tier string) {
 		files := withRT(p.files)
 		files["cfg.yaml"] = c.YAML()
 		switch {
+		case cr.Status == "ok" && strings.HasPrefix(res.Err, "step-bound:"):
+			sig := "step-bound:" + key
+			if !run.IsKnown(sig) {
+				run.Violation(sig, fmt.Sprintf("%s: %s (bound: 200x what the pinned tree needs; the worker stopped itself): %v", key, res.Err, res.Steps), files)
+			}
 		case cr.Status == "ok" && res.Done:
 			// bounded progress: logical steps against the committed table of the pinned tree
-			if base, ok := table[key]; ok && !record {
+			if base := baseFor(key); !record {
 				for site, n := range res.Steps {
 					b := base[site]
 					if b < 50 {
@@ -350,7 +405,8 @@ func C07(tier string) {
 			}
 		case cr.Status == "watchdog":
 			exceeded := false
-			if base, ok := table[key]; ok {
+			{
+				base := baseFor(key)
 				for site, n := range res.Steps {
 					b := base[site]
 					if b < 50 {
